@@ -63,7 +63,25 @@ ELEMS = [
     ('SW', [], {}, True),
 ]
 SEPS = [', ', '; ', '\n', ',', ';', ' \n', '\n ', ',\n', ';\r\n']
-CFGS = [None, 'suppress_lot_divs', 'clean_qq', 'qq_depth.1', 'qq_depth_min.3', 'break_halves']
+CFGS = [None, 'suppress_lot_divs', 'clean_qq', 'qq_depth.1', 'qq_depth_min.3', 'break_halves',
+        # the setting given as a keyword of parse() on an object whose stored configuration says the opposite
+        'kw:suppress_off_over_cfg_on', 'kw:suppress_on_over_cfg_off']
+
+
+def suppressed(cfg):
+    return cfg in ('suppress_lot_divs', 'kw:suppress_on_over_cfg_off')
+
+
+def mk(text, cfg):
+    if cfg == 'kw:suppress_off_over_cfg_on':
+        t = _p.Tract(text, config='suppress_lot_divs')
+        t.parse(suppress_lot_divs=False)
+        return t
+    if cfg == 'kw:suppress_on_over_cfg_off':
+        t = _p.Tract(text, config='suppress_lot_divs.False')
+        t.parse(suppress_lot_divs=True)
+        return t
+    return _p.Tract(text, parse_qq=True, config=cfg)
 _p = None
 _alone = {}
 
@@ -77,7 +95,7 @@ def worker_init(tier):
 def alone(ei, cfg):
     k = (ei, cfg)
     if k not in _alone:
-        t = _p.Tract(ELEMS[ei][0], parse_qq=True, config=cfg)
+        t = mk(ELEMS[ei][0], cfg)
         _alone[k] = (list(t.lots), list(t.qqs), list(t.aliquots_whole))
     return _alone[k]
 
@@ -86,7 +104,7 @@ def exp_lots(seq, cfg):
     out = []
     for ei in seq:
         for n, div in ELEMS[ei][1]:
-            if div and cfg != 'suppress_lot_divs':
+            if div and not suppressed(cfg):
                 out.append(f"{div} of L{n}")
             else:
                 out.append(f"L{n}")
@@ -118,7 +136,7 @@ def judge(acc, seq, si, cfg):
     key = f"{cfg}|{text}"
     case = {'seq': list(seq), 'sep': si, 'cfg': cfg, 'text': text}
     try:
-        t = _p.Tract(text, parse_qq=True, config=cfg)
+        t = mk(text, cfg)
         lots, qqs, whole = list(t.lots), list(t.qqs), list(t.aliquots_whole)
         acres = dict(t.lot_acres)
         wf = list(t.w_flags)
